@@ -24,6 +24,8 @@ pub struct Norm {
     pub nrets: usize,
     /// function-local struct/enum items hoisted to module level (Verus has no local datatypes)
     pub hoisted: Vec<syn::Item>,
+    /// side-car type hint for non-iterator `.map(f)`: "result" | "option" (a wrong hint is a Rust type error in the unit)
+    pub map_kind: Option<String>,
     tmp: usize,
     hint: String,
     names: BTreeMap<String, usize>,
@@ -375,7 +377,7 @@ impl<'a> Visit<'a> for HasReturn {
 
 impl Norm {
     pub fn new(from_fn: BTreeMap<usize, usize>) -> Self {
-        Norm { rules: vec![], dropped: vec![], errors: vec![], nloops: 0, nrets: 0, hoisted: vec![], tmp: 0, hint: String::new(), names: BTreeMap::new(), let_ctx: None, out_ty: None, from_fn, from_fn_idx: 0 }
+        Norm { rules: vec![], dropped: vec![], errors: vec![], nloops: 0, nrets: 0, hoisted: vec![], map_kind: None, tmp: 0, hint: String::new(), names: BTreeMap::new(), let_ctx: None, out_ty: None, from_fn, from_fn_idx: 0 }
     }
 
     fn rule(&mut self, r: &str, sp: Span, note: &str) {
@@ -977,17 +979,32 @@ impl<'a> Rewriter<'a> {
         }
         // N24: `let Ok(x) = e else { D };` -> `let x = match e { Ok(x) => x, _ => D };`
         if let Stmt::Local(l) = &s {
-            if let (Some(init), Pat::TupleStruct(ts)) = (&l.init, &l.pat) {
+            if let Some(init) = &l.init {
                 if let Some((_, div)) = &init.diverge {
-                    if ts.elems.len() == 1 {
-                        if let Pat::Ident(pi) = &ts.elems[0] {
-                            let x = &pi.ident;
-                            let e = &init.expr;
-                            let pat = &l.pat;
-                            self.n.rule("N24", s.span(), "let-else -> match with diverging arm");
-                            return vec![parse_quote!(let #x = match #e { #pat => #x, _ => #div };)];
-                        }
-                    }
+                    let mut ids = PatIdents(vec![]);
+                    ids.visit_pat(&l.pat);
+                    let names: Vec<Ident> = ids.0.iter().map(|n| id(n)).collect();
+                    let e = &init.expr;
+                    let pat = &l.pat;
+                    self.n.rule("N24", s.span(), "let-else -> match with diverging arm");
+                    return if names.len() == 1 {
+                        let x = &names[0];
+                        vec![parse_quote!(let #x = match #e { #pat => #x, _ => #div };)]
+                    } else {
+                        vec![parse_quote!(let (#(#names),*) = match #e { #pat => (#(#names),*), _ => #div };)]
+                    };
+                }
+            }
+        }
+        // N26: `while let PAT = E { B }` -> `loop { match E { PAT => { B } _ => break } }`
+        if let Stmt::Expr(Expr::While(wl), _) = &s {
+            if let Expr::Let(le) = strip_paren(&wl.cond) {
+                if wl.label.is_none() {
+                    let pat = &le.pat;
+                    let e = &le.expr;
+                    let body = &wl.body.stmts;
+                    self.n.rule("N26", s.span(), "while-let -> loop { match .. { PAT => body, _ => break } }");
+                    return vec![parse_quote!(loop { __vx_loop_body_here!(); match #e { #pat => { #(#body)* } _ => { break; } } })];
                 }
             }
         }
@@ -1413,6 +1430,23 @@ impl<'a> VisitMut for Rewriter<'a> {
                             replacement = Some(parse_quote!(#r.vctx()));
                         }
                     }
+                    ("map", 1) if parse_iter(&m.receiver, false).is_none() && self.n.map_kind.is_some() => {
+                        // N8c: Result::map / Option::map (std definition); the kind comes from the side-car
+                        let r = &m.receiver;
+                        let app: Option<Expr> = match strip_paren(&m.args[0]) {
+                            Expr::Path(p) => Some(parse_quote!(#p(__v))),
+                            Expr::Closure(c) if c.inputs.len() == 1 => { let pat = &c.inputs[0]; let body = &c.body; Some(parse_quote!({ let #pat = __v; #body })) }
+                            _ => None,
+                        };
+                        if let Some(app) = app {
+                            self.n.rule("N8", sp, "Result/Option .map(f) -> match (std definition)");
+                            replacement = Some(if self.n.map_kind.as_deref() == Some("result") {
+                                parse_quote!(match #r { Ok(__v) => Ok(#app), Err(__e) => Err(__e) })
+                            } else {
+                                parse_quote!(match #r { Some(__v) => Some(#app), None => None })
+                            });
+                        }
+                    }
                     ("ok_or_else", 1) => {
                         if let Expr::Closure(c) = strip_paren(&m.args[0]) {
                             if c.inputs.is_empty() {
@@ -1447,6 +1481,14 @@ impl<'a> VisitMut for Rewriter<'a> {
                 }
             }
             Expr::Call(c) => {
+                // N22: `String::from(e)` -> vstring_from(e) (std From<&str> for String: same characters)
+                if let Expr::Path(p) = &*c.func {
+                    if p.path.segments.len() == 2 && p.path.segments[0].ident == "String" && p.path.segments[1].ident == "from" && c.args.len() == 1 {
+                        let a = &c.args[0];
+                        self.n.rule("N22", sp, "String::from(e) -> vstring_from(e)");
+                        replacement = Some(parse_quote!(vstring_from(#a)));
+                    }
+                }
                 // N22: `u64::from_le_bytes(e)` -> vu64_from_le_bytes(e) (std signature uses a const expression Verus cannot name)
                 if let Expr::Path(p) = &*c.func {
                     if p.path.segments.len() == 2 && p.path.segments[0].ident == "u64" && p.path.segments[1].ident == "from_le_bytes" && c.args.len() == 1 {
